@@ -19,7 +19,7 @@ RULE = ('rows of length 1..6 over {space, a, é, 日, -} enumerated exhaustively
 ASSUMPTIONS = ['width-1 and width-2 characters only (python unicodedata east_asian_width W/F = 2 columns, as unicode-width)',
                'characters with a drawing meaning (keys of the ascii/unicode property tables of the tree) may or may not be text']
 FLOORS = {'quick': {'distinct_nontrivial': 3000, 'shape_label_documents': 500}, 'thorough': {'distinct_nontrivial': 60000, 'shape_label_documents': 5000}}
-LAB = "abzé日ЖkñД字"
+LAB = "abzé日ЖkñД字" + "\u1100\u26a1\u2329"   # the last three: double-width characters below the East Asian blocks
 DRAW = "-|+/.'\u2019"
 
 
@@ -155,7 +155,7 @@ def run_shard(ctx, shard):
         rows = [''.join(rng.choice(LAB) if rng.random() < pl else (rng.choice(DRAW) if rng.random() < 0.3 else ' ') for _ in range(w)) for _ in range(h)]
         if i % 7 == 3:
             # quoted segments (with multi-byte, double-width and zero-width characters) followed by labels
-            q = ''.join(rng.choice('ab é\u0301日\u200bЖ-|') for _ in range(rng.randint(1, 5)))
+            q = ''.join(rng.choice('ab é\u0301日\u200bЖ-|\u1100\u26a1') for _ in range(rng.randint(1, 5)))
             y = rng.randrange(len(rows))
             rows[y] = rows[y][:rng.randint(0, len(rows[y]))].replace('"', '') + '"' + q + '" ' + rng.choice(['ab', 'k9', 'zb a'])
             ctx.run_case({'rows': rows})
